@@ -260,7 +260,7 @@ namespace vu {
           or op == "get_ctor_name" or op == "get_dtor_name" or op == "get_this")
          a.push(rng.pick(in.types));
       else if (op == "get_array") { a.push(rng.pick(in.types)); a.push(anyexpr()); }
-      else if (op == "get_qualified") { a.push(rng.pick(in.types)); q = rng.coin(8) ? 0 : 1 + rng.below(7); }
+      else if (op == "get_qualified") { a.push(rng.pick(in.types)); q = rng.coin(8) ? 0 : rng.coin(12) ? (8 << rng.below(2)) | rng.below(8) : 1 + rng.below(7); }
       else if (op == "get_function" or op == "get_forall") {
          if (not need(in.products)) return false;
          a.push(rng.pick(in.products)); a.push(rng.pick(in.types));
